@@ -895,6 +895,8 @@ def _step_flow(r, idx):
         selfn = fi.params[0]
         raw = []
         for p in nf.decision_paths(fi.node.body):
+            if p.leaf.kind == 'ret' and p.leaf.expr is not None:
+                p.leaf.expr = cm.dict_choice(fi, p.leaf.expr)
             if p.leaf.kind == 'ret' and isinstance(p.leaf.expr, ast.IfExp):
                 t = nf.canon(p.leaf.expr.test)
                 raw.append(nf.Path(p.guards + [t], nf.Leaf('ret', p.leaf.expr.body, p.leaf.stmt, p.leaf.env), p.effects))
@@ -1061,6 +1063,7 @@ BENIGN = [
     Benign('step6-counter-by-xor', MK, "                if self.row_covered[i]:\n                    self.C[i][j] += minval\n                    events += 1\n                if not self.col_covered[j]:\n                    self.C[i][j] -= minval\n                    events += 1\n                if self.row_covered[i] and not self.col_covered[j]:\n                    events -= 2 # change reversed, no real difference\n",
            "                if self.row_covered[i]:\n                    self.C[i][j] += minval\n                if not self.col_covered[j]:\n                    self.C[i][j] -= minval\n                if self.row_covered[i] != (not self.col_covered[j]):\n                    events += 1\n"),
     Benign('step3-erases-nonexistent-primes', MK, "        n = self.n\n        count = 0\n        for i in range(n):", "        n = self.n\n        count = 0\n        self.__erase_primes()\n        for i in range(n):"),
+    Benign('step3-dict-choice', MK, "        if count >= n:\n            step = 7 # done\n        else:\n            step = 4\n\n        return step", "        next_step = {True: 7, False: 4}\n        return next_step[count >= n]"),
     Benign('step6-by-cases', MK, "                if self.row_covered[i]:\n                    self.C[i][j] += minval\n                    events += 1\n                if not self.col_covered[j]:\n                    self.C[i][j] -= minval\n                    events += 1\n                if self.row_covered[i] and not self.col_covered[j]:\n                    events -= 2 # change reversed, no real difference\n",
            "                if self.row_covered[i] and self.col_covered[j]:\n                    self.C[i][j] += minval\n                    events += 1\n                elif not self.row_covered[i] and not self.col_covered[j]:\n                    self.C[i][j] -= minval\n                    events += 1\n"),
     Benign('find-smallest-de-morgan', MK, "                if (not self.row_covered[i]) and (not self.col_covered[j]):\n                    if self.C[i][j] is not DISALLOWED and minval >",
